@@ -9,7 +9,9 @@
 //! `SCRIPT <id> <width> <height>` starts a session, `S <w> <h>` resizes,
 //! `K <key> <ctrl:0|1>` presses a key (`c<hex codepoint>`, `enter`, `tab`,
 //! `backtab`, `backspace`, `delete`, `left`, `right`, `up`, `down`, `home`,
-//! `end`, `esc`, `f1`), `FUEL <n>` sets the clock edge budget per step.
+//! `end`, `esc`, `f1`), `FUEL <n>` sets the clock edge budget per step,
+//! `PANE` prints the lines of the program pane (`PANE <id> <step> <hex>`),
+//! `COPY <from> <to>` copies a file (a program edited between two loads).
 use crossterm::event::{KeyCode, KeyEvent, KeyModifiers};
 use emulator_2a_lib::machine::{verif as libverif, StepMode};
 use tui::{buffer::Buffer, layout::Rect, widgets::StatefulWidget};
@@ -137,6 +139,17 @@ pub fn run_script_file(path: &str) -> i32 {
                 }
             }
             "FUEL" if toks.len() >= 2 => fuel = toks[1].parse().unwrap_or(fuel),
+            "PANE" => {
+                if let Some(s) = session.as_ref() {
+                    let lines: Vec<&str> = s.tui.program_display_state.lines.iter().map(|(_, l)| l.as_str()).collect();
+                    println!("PANE {} {} {}", s.id, s.step, hex(&lines.join("\n")));
+                }
+            }
+            "COPY" if toks.len() >= 3 => {
+                if let Err(e) = std::fs::copy(toks[1], toks[2]) {
+                    println!("DRIVER-ERROR cannot copy {} to {}: {}", toks[1], toks[2], e);
+                }
+            }
             "S" if toks.len() >= 3 => {
                 if let Some(s) = session.as_mut() {
                     s.width = toks[1].parse().unwrap_or(s.width);
